@@ -288,6 +288,45 @@ func Returns(fn *ssa.Function) []*ssa.Return {
 	return out
 }
 
+// RetTuple is one way a function returns: the result values with the phis of the returning block resolved to the
+// values arriving from one predecessor (what `return a, b, err` looks like after several returns were merged into
+// one, as the normaliser's splice does).
+type RetTuple struct {
+	Ret  *ssa.Return
+	Vals []ssa.Value
+	From *ssa.BasicBlock // the predecessor the values arrive from; nil when the results are not phis
+}
+
+// ReturnTuples lists the return tuples of fn.
+func ReturnTuples(fn *ssa.Function) []RetTuple {
+	var out []RetTuple
+	for _, r := range Returns(fn) {
+		blk := r.Block()
+		anyPhi := false
+		for _, v := range r.Results {
+			if p, ok := v.(*ssa.Phi); ok && p.Block() == blk {
+				anyPhi = true
+			}
+		}
+		if !anyPhi {
+			out = append(out, RetTuple{r, r.Results, nil})
+			continue
+		}
+		for k, pred := range blk.Preds {
+			vals := make([]ssa.Value, len(r.Results))
+			for i, v := range r.Results {
+				if p, ok := v.(*ssa.Phi); ok && p.Block() == blk {
+					vals[i] = p.Edges[k]
+				} else {
+					vals[i] = v
+				}
+			}
+			out = append(out, RetTuple{r, vals, pred})
+		}
+	}
+	return out
+}
+
 // deadRecoverBlock: the recover block go/ssa adds to every function with a defer is entered only when a deferred
 // call recovers from a panic. When no deferred call of fn can call recover() (library calls such as Pool.Put,
 // Mutex.Unlock, WaitGroup.Done; module functions and literals without a recover() of their own or in their static
